@@ -69,6 +69,8 @@ FooterStart(rule, n, f) ==
             ELSE [out |-> <<"seek", n - 8 - f>>, inRange |-> TRUE]
        ELSE [out |-> <<"seek", (n - 8 - f) % W>>, inRange |-> n - 8 - f >= 0]
 FooterInRange(rule, n, f) == FooterStart(rule, n, f).inRange
+\* (the two result shapes cannot be compared with = by TLC: the error case as a predicate of its own)
+FooterIsErr(rule, n, f) == n < 8 \/ (rule = "checked" /\ f > n - 8)
 
 \* Decompressor::get_contig_length / get_contig_range (decompressor.rs 265-273, 340-346)
 RECURSIVE SumOverlap(_, _, _)
